@@ -186,7 +186,7 @@ def real_bytes(chk: core.Check, thorough: bool):
     a, b = core.REPO / "tests/data/test_full_mc_evt_1.rtraw", core.REPO / "tests/data/test_full_mc_evt_2.rtraw"
     if a.exists() and b.exists():
         for brn in ["TMcEvent/m_mcParticleCol", "TDigiEvent/m_mdcDigiCol"]:
-            cat = uproot.concatenate([f"{a}:Event", f"{b}:Event", f"{a}:Event"], [brn.split("/")[-1]], filter_name="*" + brn.split("/")[-1])
+            cat = uproot.concatenate([{str(a): "Event"}, {str(b): "Event"}, {str(a): "Event"}], filter_name=brn.split("/")[-1])
             x = uproot.open(a)["Event"][brn].array(); y = uproot.open(b)["Event"][brn].array()
             want = ak.concatenate([x, y, x])
             fld = cat.fields[0]
